@@ -42,6 +42,15 @@ theorem C16_stmt_transparent (sc : Schema) (cfg : Cfg) (t : Table) (args : Args)
     · rename_i t1 n hap
       simp only [Except.ok.injEq, Prod.mk.injEq] at h
       exact ⟨n, by rw [hap, ← h.1]⟩
+  | updateLim sets w ord lim =>
+    simp only [stmtPhase1] at h
+    split at h
+    · cases h
+    · simp only [apply, Except.ok.injEq, Prod.mk.injEq] at h ⊢
+      exact ⟨_, h.1, rfl⟩
+  | deleteLim w ord lim =>
+    simp only [stmtPhase1, apply, Except.ok.injEq, Prod.mk.injEq] at h ⊢
+    exact ⟨_, h.1, rfl⟩
 
 /-- a statement the database refuses is refused through the proxy with the same error, nothing changed -/
 theorem C16_stmt_error (sc : Schema) (cfg : Cfg) (t : Table) (args : Args) (s : Stmt) (e : SqlErr)
@@ -55,14 +64,19 @@ theorem C16_stmt_error (sc : Schema) (cfg : Cfg) (t : Table) (args : Args) (s : 
     subst h
     rfl
   | upsert rows assign => simp only [stmtPhase1, h]
+  | updateLim sets w ord lim => simp [apply] at h
+  | deleteLim w ord lim => simp [apply] at h
 
-/-- the only statements the proxy refuses although the database would run them: UPDATEs after which
-    the rows stored under the selected keys are not as many as before (a key was changed) -/
+/-- the only statements the proxy refuses although the database would run them: UPDATEs (plain or with
+    ORDER BY / LIMIT) that name a key column or move a row to another key -/
 theorem C16_only_key_changes_rejected (sc : Schema) (cfg : Cfg) (t : Table) (args : Args) (s : Stmt)
     (h : stmtPhase1 sc cfg t args s = .error .pkChanged) :
-    ∃ sets w, s = .update sets w ∧ ∃ r, apply sc t args s = .ok r := by
+    ((∃ sets w, s = .update sets w) ∨ (∃ sets w ord lim, s = .updateLim sets w ord lim)) ∧
+      ∃ r, apply sc t args s = .ok r := by
   cases s with
-  | update sets w => exact ⟨sets, w, rfl, _, rfl⟩
+  | update sets w => exact ⟨Or.inl ⟨sets, w, rfl⟩, _, rfl⟩
+  | updateLim sets w ord lim => exact ⟨Or.inr ⟨sets, w, ord, lim, rfl⟩, _, rfl⟩
+  | deleteLim w ord lim => simp [stmtPhase1, apply] at h
   | delete w => simp [stmtPhase1, apply] at h
   | insert rows =>
     simp only [stmtPhase1] at h
@@ -127,6 +141,12 @@ theorem C16_local_error (sc : Schema) (cfg : Cfg) (t : Table) (ltx : LocalTx) (e
           | insert rows => simp only [stmtPhase1, he] at hp; simp at hp
           | failing s => simp [apply] at he
           | upsert rows assign => simp only [stmtPhase1, he] at hp; simp at hp
+          | updateLim sets w ord lim =>
+            simp only [stmtPhase1] at hp
+            split at hp
+            · cases hp
+            · simp [apply] at hp
+          | deleteLim w ord lim => simp [stmtPhase1, apply] at hp
         | pkChanged => right; rfl
       | ok r =>
         obtain ⟨t1', item, keys⟩ := r
